@@ -360,7 +360,10 @@ def gen_msg(rnd, env, d, depth=0, canon=False):
                 slots.append(('S', has, gen_cell(rnd, env, f, depth, canon=canon)))
         else:   # NONE (proto3 implicit presence)
             if absent or (f.type == 'MESSAGE' and depth >= 3):
-                slots.append(('S', 0, default_cell(f)))
+                if not canon and f.type == 'STRING' and rnd.random() < 0.4:
+                    slots.append(('S', 0, ('T', 'N')))       # a NULL string is "zero" too
+                else:
+                    slots.append(('S', 0, default_cell(f)))
             else:
                 c = gen_cell(rnd, env, f, depth, canon=canon)
                 if canon and is_zero_cell(f, c):
@@ -449,7 +452,9 @@ def enc_scalar(t, w, rnd=None, pad=False):
 
 
 def key(id, wt, pad=0):
-    return varint((id << 3) | wt, pad)
+    # a key may be padded up to 5 bytes in all (what the parser accepts, C04)
+    n = len(varint((id << 3) | wt))
+    return varint((id << 3) | wt, max(0, min(pad, 5 - n)))
 
 
 def lenpref(n, rnd=None, pad=False):
@@ -461,9 +466,10 @@ def lenpref(n, rnd=None, pad=False):
 
 class Opts:
     """how non-canonical the encoding may be"""
-    def __init__(self, rnd=None, shuffle=False, pad=False, repack=False, split=False, stale=False, unknown=False):
+    def __init__(self, rnd=None, shuffle=False, pad=False, repack=False, split=False, stale=False, unknown=False, drop=None):
         self.rnd = rnd; self.shuffle = shuffle; self.pad = pad; self.repack = repack
         self.split = split; self.stale = stale; self.unknown = unknown
+        self.drop = drop          # (message type index, field id): leave that field out of every message of that type
 
 
 def cell_payload(env, f, c, o):
@@ -575,6 +581,8 @@ def msg_records(env, m, o):
     out = []
     for f, s in zip(desc.fields, m.slots):
         g = f.group()
+        if o.drop is not None and o.drop == (m.d, f.id):
+            continue
         if g is not None:
             case, cell = m.unions[g]
             if case != f.id:
@@ -635,6 +643,27 @@ def encode(env, m, o):
 
 
 CANON = Opts()
+
+
+def contains_type(env, m, d):
+    """does a message of type d occur in the tree of m at a place pack would emit"""
+    if m.d == d:
+        return True
+    desc = env.msgs[m.d]
+    for f, s in zip(desc.fields, m.slots):
+        if f.type != 'MESSAGE':
+            continue
+        g = f.group()
+        if g is not None:
+            case, cell = m.unions[g]
+            if case == f.id and cell[1] is not None and contains_type(env, cell[1], d):
+                return True
+        elif f.label == 'REP':
+            if s[1] and s[2] and any(c[1] is not None and contains_type(env, c[1], d) for c in s[2][:s[1]]):
+                return True
+        elif s[2][1] is not None and contains_type(env, s[2][1], d):
+            return True
+    return False
 
 
 def corrupt(rnd, bs):
